@@ -37,7 +37,7 @@ claim(
 )
 
 claim(
-    'C02', 'other', 'path enumeration with guard facts over every arithmetic dunder; operand-role, operand-order and scalar-form term rules; abstract evaluation of k*A, A*k, A/k, -A (symbolic scalars) and of L @ R on 484 operand pairs compared in the free group of opaque operators',
+    'C02', 'other', 'path enumeration with guard facts over every arithmetic dunder; operand-role, operand-order and scalar-form term rules; abstract evaluation of k*A, A*k, A/k, -A (symbolic scalars), of L @ R on 529 operand pairs compared in the free group of opaque operators (operands unchanged), of L + R / L - R as formal sums of signed terms, and of the structure guards on 140 operand combinations',
     'Every path of every arithmetic dunder of the operator classes: a path that returns an operator is dominated by the structure guard with '
     'the right operand roles (IN(self) vs OUT(other) for @, mirrored for the reflected form, IN-IN and OUT-OUT for sums), or delegates to a dunder '
     'that is, or sits under an operand-identity guard; operand lists are in product order and contain every operand once; NotImplemented '
@@ -70,7 +70,7 @@ claim(
 )
 
 claim(
-    'C03', 'other', 'class-table resolution of `transpose` (MRO + interpreted decorator rewiring); adjoint schemas on canonical terms; exact symbolic transpose identity',
+    'C03', 'other', 'class-table resolution of `transpose` (MRO + interpreted decorator rewiring); adjoint schemas on canonical terms; abstract evaluation of the transposes of products and sums (flat and nested); exact symbolic transpose identity',
     'For each of the 31 operator classes `transpose` is resolved as Python would resolve it: generic lazy transpose (adjoint by jax.linear_transpose, '
     'transposable because C04 shows the mv linear), self (class must be tagged symmetric), or hand-written. Each hand-written transpose is matched '
     'against the adjoint construction of its class: structures swapped, same data, composition reversed unconditionally, row <-> column of transposed '
